@@ -81,7 +81,8 @@ Groups == {
   G("vopc", [src0: S9t \cup {249}, vsrc1: {0, 255}, op: Thin(Ops("vopc")) \cup {0, 15}], X1t),
   G("vop3a", UNION {Vary([V3Base EXCEPT !.op = o], V3Alts) : o \in Thin(Ops("vop3a")) \cup {0, 499, 1023}}, Z),
   G("vop3a", [vdst: Pick({0, 255}, {255}), abs: {0}, opsel: Pick({0, 9}, {9}), clamp: {0}, src0: S9 \cup S8r,
-              src1: Pick(S9 \cup S8r, {1, 255, 256}), src2: {240, 123, 255, 257}, omod: {1}, neg: {1},
+              src1: Pick({1, 101, 102, 127, 128, 193, 209, 240, 255, 256}, {1, 255, 256}), src2: {240, 123, 255, 257},
+              omod: {1}, neg: {1},
               op: Few("vop3a", {16, 200, 256, 449, 944, 945})], Z),
   G("vop3b", [vdst: {0, 255}, sdst: Pick({0, 106, 123, 127}, {106, 123, 127}), clamp: {0, 1}, src0: {5, 300, 255, 250},
               src1: {128}, src2: Pick({0, 106, 209}, {106, 209}), omod: {2}, neg: {0, 7}, op: Ops("vop3b")], Z),
@@ -89,7 +90,9 @@ Groups == {
            vdst: {0, 255}, op: Thin(Ops("ds")) \cup {21}], Z),
   G("flat", [offset: {0, 4, 4095, 4096, 8191}, glc: Pick({0, 1}, {1}), slc: {0, 1}, tfe: {0, 1}, addr: Pick({0, 255}, {255}), data: {1},
              saddr: {0, 2, 127}, vdst: {0, 255},
-             op: Pick(Ops("flat"), Few("flat", {16, 20, 21, 22, 23, 28, 31, 80})) \cup {0, 127}], Z),
+             op: Few("flat", {16, 20, 21, 22, 23, 28, 31, 80}) \cup {0, 127}], Z),
+  G("flat", [offset: {4, 8191}, glc: {1}, slc: {0}, tfe: {1}, addr: {255}, data: {1}, saddr: {0, 127}, vdst: {255},
+             op: Ops("flat")], Z),
   \* words of no format / of formats without a decoder: x is the first dword
   G("raw", {[op |-> 0]}, {<<h, 0>> : h \in {52224, 54272, 58368, 60416, 62464, 65535, 51200, 57344, 59392, 61440, 50176}}) }
 
